@@ -22,6 +22,10 @@ func (w *World) monitorTripped(d *SimDisk) bool {
 	}
 	mv := d.MonViol[0]
 	d.MonViol = nil
+	if mv.Clause == "same-content-different-bytes" {
+		// the stored bytes are still what their name says: other properties' oracles can go on
+		return w.softFor("C08", mv.Clause, "%s", mv.Detail)
+	}
 	w.failFor("C08", mv.Clause, "%s", mv.Detail)
 	return true
 }
